@@ -325,3 +325,26 @@ def scratch_dir(prop):
     shutil.rmtree(d, ignore_errors=True)
     os.makedirs(d)
     return d
+
+
+def run_regressions(prop, binary_for):
+    """Replays every committed regression plan of this property (minimised
+    plans of defects that were fixed): a fixed entry suppresses nothing, so a
+    plan that violates again is reported like any other violation.
+    binary_for(plan_text) -> path of the binary to run it with."""
+    d = os.path.join(VERIF, "regress")
+    n = 0
+    bad = 0
+    if not os.path.isdir(d):
+        return 0, 0
+    for f in sorted(os.listdir(d)):
+        if not f.startswith(prop + "-") or not f.endswith(".plan"):
+            continue
+        path = os.path.join(d, f)
+        viol, sig, fp, outp = exec_plan(binary_for(open(path).read()), path)
+        n += 1
+        if viol:
+            bad += 1
+            log("VIOLATION property=%s replay=%s" % (prop, path))
+            log("  signature=%s (a previously fixed defect is back)" % sig)
+    return n, bad
